@@ -70,6 +70,22 @@ class Tree:
         put(os.path.join(self.base, "www.key"))
         for n in SIZES:
             put(os.path.join(self.root, f"r{n}.bin"), n if n >= 0 else 0)
+        # pre-compressed siblings: a genuine one, and one that is a symlink to a file outside the root
+        import gzip
+
+        def put_gz(path: str) -> None:
+            plain = content_for(os.path.relpath(path, self.base), 64)
+            with open(path, "wb") as f:
+                f.write(gzip.compress(plain, mtime=0))
+            self.files[os.path.realpath(path)] = plain  # the oracle compares the decoded body
+
+        put(os.path.join(self.root, "pc.txt"))
+        put_gz(os.path.join(self.root, "pc.txt.gz"))
+        put(os.path.join(self.root, "sl.txt"))
+        put_gz(os.path.join(self.outside, "secret.txt.gz"))
+        os.symlink("../outside/secret.txt.gz", os.path.join(self.root, "sl.txt.gz"))
+        put(os.path.join(self.root, "dl.txt"))
+        os.symlink("../outside", os.path.join(self.root, "dl.txt.gz"))
         os.symlink("../outside/secret.txt", os.path.join(self.root, "link_out_file"))
         os.symlink("../outside", os.path.join(self.root, "link_out_dir"))
         os.symlink("sub/in2.txt", os.path.join(self.root, "link_in"))
@@ -90,6 +106,7 @@ class Tree:
             if dirpath.count(os.sep) - self.root.count(os.sep) > 4:
                 dirs[:] = []
         self.via_links.add(os.path.realpath(os.path.join(self.outside, "secret.txt")))
+        self.via_links.add(os.path.realpath(os.path.join(self.outside, "secret.txt.gz")))
 
     def cleanup(self) -> None:
         shutil.rmtree(self.base, ignore_errors=True)
@@ -151,14 +168,15 @@ def fetch(target: bytes, *, method: str = "GET", headers: list | None = None, fo
 SEGMENTS = [b"..", b".", b"%2e%2e", b"%2E%2e", b".%2e", b"%2e", b"%2f", b"%2F", b"%5c", b"\\", b"", b"%00", b"%c0%ae%c0%ae", b"%252e%252e", b"..%2f", b"..%5c", b"%2e%2e%2f",
             b"sub", b"in.txt", b"in2.txt", b"link_out_dir", b"link_out_file", b"link_in", b"link_sibling", b"loop", b"fifo", b".hidden", b"x.txt", b"dir.d", b"f",
             b"outside", b"secret.txt", b"www-backup", b"leak.txt", b"www.key", b"www", b"C:", b"etc", b"passwd", b"a%20b.txt", b"in.txt.", b"in.txt%20", b"..;", b"....",
-            b"%2e%2e%2fwww-backup%2fleak.txt", b"..%2Fwww.key", b"..%2foutside%2fsecret.txt"]
+            b"%2e%2e%2fwww-backup%2fleak.txt", b"..%2Fwww.key", b"..%2foutside%2fsecret.txt",
+            b"pc.txt", b"pc.txt.gz", b"sl.txt", b"sl.txt.gz", b"dl.txt", b"dl.txt.gz", b"secret.txt.gz"]
 
 
 def check_confine(rec: Rec, case: dict) -> None:
     t = tree()
     target = case["target"]
     follow, index, method = case["follow"], case["index"], case["method"]
-    resps, raw, problem, excs = fetch(target, method=method, follow=follow, index=index)
+    resps, raw, problem, excs = fetch(target, method=method, follow=follow, index=index, headers=[("Accept-Encoding", case["ae"])] if case.get("ae") else None)
     enc = any(x in target.lower() for x in (b"%2e", b"%2f", b"%5c", b"\\", b"%00", b"%25")) or b"link" in target or b".." in target
     rec.case(case, enc, ["confine", f"follow={follow}", f"index={index}"])
     if problem:
@@ -173,13 +191,24 @@ def check_confine(rec: Rec, case: dict) -> None:
         ctype = (r.get(b"content-type") or b"").lower()
         if method == "HEAD":
             return
-        if r.body.startswith(b"FILE:"):
-            marker = r.body.split(b"\n", 1)[0][5:].decode()
+        body = r.body
+        if (r.get(b"content-encoding") or b"").lower() == b"gzip":
+            import gzip
+
+            if not case.get("ae"):
+                raise Violation("static-encoded-without-accept", f"{method} {target!r}: Content-Encoding: gzip although the request did not accept it")
+            try:
+                body = gzip.decompress(r.body)
+            except Exception as e:  # noqa: BLE001
+                raise Violation("static-bad-gzip", f"{method} {target!r}: Content-Encoding: gzip but the body does not decode: {e}")
+            r = refhttp.Resp(status=r.status, headers=r.headers, body=body, complete=r.complete) if hasattr(refhttp, "Resp") and False else r
+        if body.startswith(b"FILE:"):
+            marker = body.split(b"\n", 1)[0][5:].decode()
             real = os.path.realpath(os.path.join(t.base, marker))
             allowed = t.via_links if follow else t.inside
             if real not in allowed:
                 raise Violation("static-escape" + ("/follow" if follow else ""), f"{method} {target!r} (follow_symlinks={follow}) served {marker!r}, which is outside the root")
-            if r.body != t.files[real] and r.status == 200:
+            if body != t.files[real] and r.status == 200:
                 raise Violation("static-wrong-bytes", f"{method} {target!r}: body differs from file {marker}")
         elif b"text/html" in ctype:
             if not index:
@@ -189,7 +218,16 @@ def check_confine(rec: Rec, case: dict) -> None:
                 if b".." in nme or nme.startswith((b"//", b"http")):
                     raise Violation("static-listing-link-outside", f"{method} {target!r}: listing links to {nme!r}")
         else:
-            raise Violation("static-unknown-content", f"{method} {target!r}: 200 with unexpected body {r.body[:40]!r}")
+            if body[:2] == b"\x1f\x8b":
+                import gzip
+
+                inner = gzip.decompress(body)  # a .gz file requested by its own name is served as it is
+                marker = inner.split(b"\n", 1)[0][5:].decode()
+                real = os.path.realpath(os.path.join(t.base, marker))
+                if real not in (t.via_links if follow else t.inside):
+                    raise Violation("static-escape" + ("/follow" if follow else ""), f"{method} {target!r} (follow_symlinks={follow}) served {marker!r}, which is outside the root")
+            else:
+                raise Violation("static-unknown-content", f"{method} {target!r}: 200 with unexpected body {r.body[:40]!r}")
     elif r.status >= 500:
         rec.label("confine-5xx(no content served)")
 
@@ -200,7 +238,7 @@ def confine_cases(draw):
     sep = draw(st.sampled_from([b"/", b"/", b"/", b"//", b"%2f", b"\\"]))
     prefix = draw(st.sampled_from([b"/static/", b"/static/", b"/static//", b"/static", b"//static/", b"/static/sub/", b"/static/../static/", b"/static%2f", b"/./static/"]))
     return {"target": prefix + sep.join(segs) + draw(st.sampled_from([b"", b"", b"/", b"?x=1", b"%00"])), "follow": draw(st.booleans()), "index": draw(st.booleans()),
-            "method": draw(st.sampled_from(["GET", "GET", "HEAD"]))}
+            "method": draw(st.sampled_from(["GET", "GET", "HEAD"])), "ae": draw(st.sampled_from([None, "gzip", "gzip, br", "identity"]))}
 
 
 def unit_confine(rec: Rec, n: int, offset: int) -> None:
@@ -213,11 +251,12 @@ def unit_confine_fixed(rec: Rec) -> None:
         for b in [None] + SEGMENTS[:17] + [b"secret.txt", b"leak.txt", b"www.key", b"www-backup", b"outside"]:
             for follow in (False, True):
                 target = b"/static/" + a + (b"/" + b if b is not None else b"")
-                case = {"target": target, "follow": follow, "index": False, "method": "GET"}
-                try:
-                    check_confine(rec, case)
-                except Violation as v:
-                    rec.fail(v.key, v.msg, case)
+                for ae in (None, "gzip"):
+                    case = {"target": target, "follow": follow, "index": False, "method": "GET", "ae": ae}
+                    try:
+                        check_confine(rec, case)
+                    except Violation as v:
+                        rec.fail(v.key, v.msg, case)
     rec.exhaustive = True
 
 
